@@ -609,6 +609,9 @@ def gen_search_spec(rng, k):
     if k % 2 == 0:
         name = SEARCH_CATALOGUE[(k // 2) % len(SEARCH_CATALOGUE)]
         spec = c02.spec_catalogue(name, rng)
+        if (k // 2) % 4 == 3 or k == 2:
+            # a calendar clock (day numbers): the catalogue models are autonomous, only the time axis is shifted
+            spec = dict(spec, t0=738000.0)
     else:
         spec = c02.gen_valid_model(rng, nstate=int(rng.integers(1, 5)))
     return spec
